@@ -9,6 +9,7 @@ import CprocVerif.Lemmas.PPArgsExec
 import CprocVerif.Lemmas.PPSubst
 import CprocVerif.Lemmas.PPObjFuel
 import CprocVerif.Lemmas.PPFunStep
+import CprocVerif.Lemmas.PPFunSim6
 
 /-!
 # C12 — macro definition and expansion follow C11 6.10.3 on the implemented subset
@@ -516,6 +517,66 @@ example : SimpleFun mH :=
 example : (collect mH.params 0 0 [] [] rawH).toOption =
     some ([[num b!"1"], [tk .TLPAREN, num b!"2", tk .TCOMMA, ident b!"y", tk .TRPAREN]], [ident b!"x"]) := by decide +kernel
 example : PlainFor [mH] rawH (collect mH.params 0 0 [] [] rawH) := plainFor_of_all (by decide +kernel) _
+
+/-! ## 7d. Tables with function-like macros: the whole stream
+
+The class.  `TblOK ms0` (table): distinct names; no empty replacement list; replacement lists of
+unpainted tokens, none of them the name of a function-like macro (object-like macros may refer
+to each other and to themselves in any way); every function-like macro is `SimpleFun` (at least
+one parameter, no `...`, no `#`).  `TextOK ms0 raw` (text): no directive; every occurrence of the
+name of a function-like macro is an invocation that `collect` accepts, whose arguments hold no
+macro name, new-line or `#` and none of which is empty; the list may end with the end-of-file token.  `GoodF ms0 st` (state): the table of
+`st` is `ms0` up to the hide flags and the stored arguments, the hide-flag invariant holds, and
+what the context stack still holds (`flat`) is free of function-like names.  `absF st` is the
+source still to be processed as the reference sees it: the tokens the context stack will deliver
+(parameters lazily replaced), each with the hide set "macros with a live frame at or below it",
+then the text up to its end-of-file token (new-lines dropped). -/
+
+/-- **Object-like and simple function-like macros together: the token stream of the model is the
+token stream of the reference.**  If the model's run completes, the reference — with `J` units
+of fuel or more — completes without diagnostic and delivers the same tokens by class and
+spelling (after `keyword()`; the model's final `TEOF` aside). -/
+theorem function_like_correct_partial (ms0 : List Macro) (hTb : TblOK ms0) (n : Nat) (st : St) (g : GoodF ms0 st)
+    (ht : TextOK ms0 st.raw) (hrun : (run n st).2 = none) :
+    ∃ J, ∀ K, J ≤ K →
+      (MacroRef.expandH false K (tblF ms0) (absF st)).2.1 = none ∧
+      (MacroRef.expandH false K (tblF ms0) (absF st)).1.map (fun t => kwKey t.tok.key) = runKeys (run n st).1 := by
+  obtain ⟨L, hL, hlink⟩ := run_simF ms0 hTb n st g ht hrun
+  obtain ⟨J, hJ⟩ := hlink.final
+  refine ⟨J, fun K hK => ?_⟩
+  have := hJ K hK
+  simp only [outKeys, Prod.mk.injEq] at this
+  refine ⟨this.2, ?_⟩
+  rw [← hL, ← this.1, List.map_map]
+  rfl
+
+/-- the same from the start of a text, with the class given by its executable tests (`tblOKb`,
+`textOKb`: what the check's driver evaluates to count the units this theorem covers) -/
+theorem function_like_correct_init (ms0 : List Macro) (raw : List Tok) (n : Nat) (h1 : tblOKb ms0 = true)
+    (h2 : ∀ m ∈ ms0, m.hide = false) (h3 : textOKb ms0 (raw.length + 1) raw = true)
+    (hrun : (run n { raw := raw, macros := ms0 }).2 = none) :
+    ∃ J, ∀ K, J ≤ K →
+      (MacroRef.expandH false K (tblF ms0) ((absRawF raw).map .tok)).2.1 = none ∧
+      (MacroRef.expandH false K (tblF ms0) ((absRawF raw).map .tok)).1.map (fun t => kwKey t.tok.key)
+        = runKeys (run n { raw := raw, macros := ms0 }).1 :=
+  function_like_correct_partial ms0 (tblOK_of_b h1) n { raw := raw, macros := ms0 }
+    (goodF_init ms0 raw (tblOK_of_b h1) h2) (textOK_of_b ms0 _ raw h3) hrun
+
+-- non-vacuity: `#define H(a, b) b + a a` / `#define A B x` / `#define B A H`, and the text
+-- `A H ( 1 , ( 2 , y ) ) x` new-line `B H(z,z)`
+def mAB' : Macro := { func := false, name := b!"A", body := [ident b!"B" true, ident b!"x" true] }
+def mBA' : Macro := { func := false, name := b!"B", body := [ident b!"A" true, num b!"7" true] }
+def tblHAB : List Macro := [mH, mAB', mBA']
+def rawHAB : List Tok := ident b!"A" :: ident b!"H" true :: tk .TLPAREN none true :: rawH ++
+  [NL, ident b!"B", ident b!"H" true, tk .TLPAREN, ident b!"z", tk .TCOMMA, ident b!"z", tk .TRPAREN, NL, tk .TEOF]
+example : tblOKb tblHAB = true := by decide +kernel
+example : ∀ m ∈ tblHAB, m.hide = false := by decide
+example : textOKb tblHAB (rawHAB.length + 1) rawHAB = true := by decide +kernel
+example : (run 60 { raw := rawHAB, macros := tblHAB }).2 = none := by decide +kernel
+example : runKeys (run 60 { raw := rawHAB, macros := tblHAB }).1 =
+    [ident b!"A", num b!"7", ident b!"x", tk .TLPAREN, num b!"2", tk .TCOMMA, ident b!"y", tk .TRPAREN, tk .TADD,
+     num b!"1", num b!"1", ident b!"x", ident b!"B", ident b!"x", num b!"7", ident b!"z", tk .TADD, ident b!"z",
+     ident b!"z"].map (fun t => (t.kind, t.lit)) := by decide +kernel
 
 /-! ## 8. Function-like macros: the full statement, and why it is false today
 
